@@ -227,7 +227,7 @@ def check_c14_cfg(v, tier, cfg):
     for profile in ("debug", "release"):
         b = build_harness(profile)
         out = os.path.join(vlib.RUN, "print-%s-%s.json" % (cfg, profile))
-        rc, o = sh(["bash", "-c", "set -o pipefail; pigz -dc %s | %s print --out %s" % (path, b, out)], timeout=3600)
+        rc, o = sh(["bash", "-c", "pigz -dc %s | %s print --out %s; exit ${PIPESTATUS[1]}" % (path, b, out)], timeout=3600)
         if rc != 0:
             raise ToolError("print harness failed: " + o[-2000:])
         r = json.load(open(out))
@@ -311,7 +311,7 @@ def check_c17(v, tier):
         if "par_iter" in fs_:
             out = os.path.join(vlib.RUN, "thr-%s.json" % name.replace("+", "_"))
             try:
-                rc, o = sh(["bash", "-c", "set -o pipefail; pigz -dc %s | %s threads --threads 2 --every 9 --random 6 --seed %d --out %s" % (path, b, SEED, out)], timeout=300)
+                rc, o = sh(["bash", "-c", "pigz -dc %s | %s threads --threads 2 --every 9 --random 6 --seed %d --out %s; exit ${PIPESTATUS[1]}" % (path, b, SEED, out)], timeout=300)
             except subprocess.TimeoutExpired:
                 # a call that does not return while the arenas for the reader battery are built
                 sh(["pkill", "-f", out])
@@ -405,7 +405,7 @@ def check_c18(v, tier):
     out = os.path.join(vlib.RUN, "threads.json")
     every = 5 if tier == "quick" else 1
     try:
-        rc, o = sh(["bash", "-c", "set -o pipefail; pigz -dc %s | %s threads --threads 16 --every %d --random %d --seed %d --out %s" % (path, b, every, 30 if tier == "quick" else 200, SEED, out)], timeout=600 if tier == "quick" else 3600)
+        rc, o = sh(["bash", "-c", "pigz -dc %s | %s threads --threads 16 --every %d --random %d --seed %d --out %s; exit ${PIPESTATUS[1]}" % (path, b, every, 30 if tier == "quick" else 200, SEED, out)], timeout=600 if tier == "quick" else 3600)
     except subprocess.TimeoutExpired:
         sh(["pkill", "-f", out])
         v.add_findings([{"prop": "C02", "kind": "hang", "detail": "the reader battery did not finish (a call does not return while the arenas are built)", "case": {}}], "threads")
